@@ -3,7 +3,7 @@ from vlib import common
 
 
 def key_fn(case, obs, verdict):
-    # cell <kind> <preload> <limit> <passes> <n> <consumers> <cancel>
+    # cell <kind> <preload> <limit> <passes> <n> <consumers> <cancel> [<eof> [<fs>]]
     f = case.split(" ")
     o = obs.split(" ")
     if f[0] == "engine":
@@ -29,9 +29,12 @@ def run(ctx):
         key_fn=key_fn, what_fn=what_fn,
         trusted=[
             "extraction: ExtrOcamlBasic only; OCaml driver ocaml/C08/main.ml + ocaml/common/conv.ml",
-            "correspondence harness harness/cmd/hC08 + harness/internal/a08 (real providers via public constructors on afero mem files; "
+            "correspondence harness harness/cmd/hC08 + harness/internal/a08 (real providers via public constructors on afero mem files and on real files "
+            "through afero.NewOsFs in a scratch directory, both behind a pass-through wrapper that counts opens / closes / operations on closed handles; "
             "bounded waits of 2 s map 'no progress' to blocked/hang)",
             "modelled, not verified: the providers at the level of the entry list (decoding of bytes into entries is C07's); "
+            "the handle of the ammo file as open/closed with per-provider plans of operations (Model/ProviderFile.v: which phase opens, may read, closes, "
+            "and what Run does with the error of Close), 'a loop iteration may read the handle' instead of the exact reads; "
             "Go channel hand-off (what is sent is what consumers acquire, in order) and context cancellation as an oracle on the number of items sent",
         ],
         assumptions=["Go channels deliver every sent item exactly once, in order; close wakes all receivers",
